@@ -59,9 +59,10 @@ End AssocLemmas.
    g_newer : a dependent resolved a dependency name to an instance that is not older than itself although an
              older instance of that name exists (the dependency was restarted between the creation of the
              dependent and its lookup): the monitor only accepts instances created before the dependent.
-   g_endov : onProcessEnd was entered for an instance while another onProcessEnd execution for the same
-             instance had not yet written its status (stop of a Pending process racing with its own Skipped /
-             Error end): the observer's o_endst has one slot, so o_ended lags behind the done flag. *)
+   g_endov : a status of an instance was written that differs from the status of the latest onProcessEnd
+             entered for it, while the observer had not yet seen the instance end (two overlapping
+             onProcessEnd executions, e.g. the stop of a Pending process racing with its own Skipped end):
+             the observer's o_endst has one slot, so o_ended lags behind the done flag of the code. *)
 Record gst := mkG { g_pending : option iid; g_unreg : bool; g_newer : bool; g_endov : bool }.
 Definition g0 : gst := mkG None false false false.
 
@@ -82,10 +83,10 @@ Definition g_step (o : obs) (g : gst) (te : tid * event) : gst :=
                       (g_newer g || (negb (Nat.ltb (o_idx (oi_get o j)) ix) && has_older o k ix)) (g_endov g)
       | None => g
       end
-  | EProcEnd i _ =>
+  | EState i s0 =>
       let x := oi_get o i in
       mkG (g_pending g) (g_unreg g) (g_newer g)
-          (g_endov g || match o_endst x with Some _ => negb (o_ended x) | None => false end)
+          (g_endov g || match o_endst x with Some s1 => negb (status_eqb s1 s0) && negb (o_ended x) | None => false end)
   | _ => g
   end.
 
